@@ -481,7 +481,7 @@ def r7(ctx):
       'into pieces (chunks, a length cap) never forms the candidate pairs that straddle a cut: the result is not the canonical merge')
 def r8(ctx):
     from analysis.seq import seq_of_iter, seq_of, iter_init, next_call_of, item_subst_fn, ITEM, subst
-    from analysis.pat import match, Call, ANY, Pred
+    from analysis.pat import match, Call, ANY, Pred, has
     from analysis.sym import core, symbolizer, simplify, defs_of
     b = _mb(ctx)
     outer = None
@@ -499,23 +499,46 @@ def r8(ctx):
     ctx.require(ok, b, 'word-source', 'the word loop runs over every match of the splitter regex on the input, one word at a time',
                 'the word loop of merge_bytes runs over %s' % [repr(x)[:200] for x in segs or ()], nx.span)
     # the per-word tables: Vec<Vec<u8>> and Vec<Option<u32>> built inside the loop from the bytes of the matched word
+    from analysis.seq import seq_of_var
+    from analysis.sym import init_value, walk
+    from rules.common import str_slice
     f = item_subst_fn(b, nx, 0)
     z = symbolizer(b)
     n = 0
-    for name in ('std::vec::Vec<std::vec::Vec<u8>>', 'std::vec::Vec<std::option::Option<u32>>'):
+
+    def whole(src):
+        """the iterated source is all bytes of the current match: the match itself (as_str / as_bytes / iter are transparent), or the slice
+        s[m.start()..m.end()] of the input; `chunks(1)` over it still yields every byte"""
+        x = peel(src)
+        if x[0] == 'call' and x[1].endswith('::chunks') and len(x[2]) == 2 and match(core(x[2][1]), Pred(lambda u: u[0] == 'const' and u[2] == 1)):
+            x = peel(x[2][0])
+        if core(x) == ITEM:
+            return True
+        sl = str_slice(x)
+        return sl is not None and has(core(sl[0]), ('arg', 2, ANY)) and sl[1] is not None and sl[2] is not None and \
+            match(core(sl[1]), Call('Match::start', ITEM)) and match(core(sl[2]), Call('Match::end', ITEM))
+    types = ('std::vec::Vec<std::vec::Vec<u8>>', 'std::vec::Vec<std::option::Option<u32>>')
+    cands = {}
+    for name in types:
         for l in range(len(b.locals)):
             if b.local_ty(l) != name or not b.var_name(l):
                 continue
-            whole, partial = defs_of(b, l)
-            init = [d for d in whole if d.bb in lp.blocks]
-            if len(init) != 1:
-                continue
-            d = init[0]
-            v = nosite(simplify(z.rvalue(d.rv, 0, (l,)) if hasattr(d, 'rv') else z.call(d, 0, (l,))))
-            ws = seq_of(ctx.facts, b, subst(v, f))
-            n += 1
-            okw = ws is not None and len(ws) == 1 and ws[0].kind == 'each' and not ws[0].conds and core(ws[0].src) == ITEM
-            ctx.require(okw, b, 'whole-word|' + b.var_name(l), '`%s` starts with one entry per byte of the whole matched word' % b.var_name(l),
-                        '`%s` is built from %s instead of all bytes of the matched word' % (b.var_name(l), [repr(x)[:160] for x in ws or ()]), d.span)
+            whole_d, partial = defs_of(b, l)
+            init = [d for d in whole_d if d.bb in lp.blocks]
+            if len(init) == 1:
+                cands[l] = (name, init[0])
+    for l, (name, d) in cands.items():
+        v = nosite(simplify(z.rvalue(d.rv, 0, (l,)) if hasattr(d, 'rv') else z.call(d, 0, (l,))))
+        # a table that is handed over from another candidate (the result of a helper, a move) is judged where it is built
+        if any(isinstance(x, tuple) and x and x[0] in ('var', 'phi') and (x[2] if x[0] == 'var' and len(x) > 2 else x[1]) in cands and
+               (x[2] if x[0] == 'var' and len(x) > 2 else x[1]) != l for x in walk(init_value(b, v))):
+            continue
+        writers = [t for t in b.calls(r'Vec::(push|extend|extend_from_slice)$|Extend>::extend$') if core(sym(b, t.args[0]))[0] == 'var' and core(sym(b, t.args[0]))[2] == l]
+        ws = seq_of_var(ctx.facts, b, l) if writers else seq_of(ctx.facts, b, v)
+        ws = [w_ for w_ in (ws or []) if not (w_.kind == 'opaque')]
+        n += 1
+        okw = len(ws) == 1 and ws[0].kind == 'each' and not ws[0].conds and whole(subst(ws[0].src, f))
+        ctx.require(okw, b, 'whole-word|' + b.var_name(l), '`%s` starts with one entry per byte of the whole matched word' % b.var_name(l),
+                    '`%s` is built from %s instead of all bytes of the matched word' % (b.var_name(l), [repr(x)[:160] for x in ws or ()]), d.span)
     if n < 2:
         raise AnchorMissing('per-word byte and id tables of merge_bytes (found %d)' % n)
